@@ -813,4 +813,565 @@ Section Tree.
       exfalso. apply Hoff. apply up_root.
     Qed.
   End Bound.
+
+  (** ** the state of mergedRowReader between two steps of its loop *)
+  Notation mk := (mk K).
+  Notation no_buf := (no_buf K).
+
+  Definition absk (m : mk) : list (list row) := map remaining (k_bufs m).
+
+  Definition is_some (o : option row) : bool := match o with Some _ => true | None => false end.
+
+  Definition alive (hd : nat -> option row) (k : nat) : nat :=
+    length (filter (fun i => is_some (hd i)) (List.seq 0 k)).
+
+  Lemma filter_seq_ext (f g : nat -> bool) s n :
+    (forall i, (s <= i < s + n)%nat -> f i = g i) -> filter f (List.seq s n) = filter g (List.seq s n).
+  Proof.
+    revert s. induction n as [|n IH]; intros s H; cbn; [reflexivity|].
+    rewrite (H s) by lia. rewrite (IH (S s)); [reflexivity|]. intros i Hi. apply H. lia.
+  Qed.
+
+  Lemma alive_ext hd hd' k : (forall i, (i < k)%nat -> is_some (hd i) = is_some (hd' i)) -> alive hd k = alive hd' k.
+  Proof. intros H. unfold alive. f_equal. apply filter_seq_ext. intros i Hi. apply H. lia. Qed.
+
+  Lemma filter_seq_kill (f g : nat -> bool) w : forall n s,
+    (s <= w < s + n)%nat -> f w = true -> g w = false -> (forall i, i <> w -> f i = g i) ->
+    length (filter f (List.seq s n)) = S (length (filter g (List.seq s n))).
+  Proof.
+    induction n as [|n IH]; intros s Hw Hf Hg Hne; [lia|]. cbn [List.seq filter].
+    destruct (Nat.eq_dec s w) as [->|Hsw].
+    - rewrite Hf, Hg. cbn [length]. f_equal. f_equal. apply filter_seq_ext. intros i Hi. apply Hne. lia.
+    - rewrite (Hne s Hsw). destruct (g s); cbn [length]; rewrite (IH (S s)); auto; lia.
+  Qed.
+
+  Lemma alive_kill hd hd' k w : (w < k)%nat -> hd w <> None -> hd' w = None ->
+    (forall i, i <> w -> hd' i = hd i) -> alive hd k = S (alive hd' k).
+  Proof.
+    intros Hw H1 H2 H3. unfold alive. apply (filter_seq_kill _ _ w); try lia.
+    - destruct (hd w); [reflexivity|congruence].
+    - now rewrite H2.
+    - intros i Hi. now rewrite H3.
+  Qed.
+
+  Lemma alive_zero hd k : alive hd k = 0%nat -> forall i, (i < k)%nat -> hd i = None.
+  Proof.
+    unfold alive. intros H i Hi. destruct (hd i) eqn:E; [|reflexivity]. exfalso.
+    assert (In i (filter (fun i => is_some (hd i)) (List.seq 0 k))).
+    { apply filter_In. split; [apply in_seq; lia|now rewrite E]. }
+    destruct (filter _ _); [contradiction|discriminate].
+  Qed.
+
+  Lemma alive_pos hd k i : (i < k)%nat -> hd i <> None -> (0 < alive hd k)%nat.
+  Proof.
+    intros Hi H. destruct (alive hd k) eqn:E; [|lia]. exfalso. apply H. exact (alive_zero _ _ E i Hi).
+  Qed.
+
+  Record KPre (m : mk) (hd : nat -> option row) : Prop := {
+    kp_tree : TreeInv (length (k_bufs m)) (k_losers m) (k_winner m) hd;
+    kp_leaf : k_leaf m = Z.of_nat (length (k_bufs m)) + k_winner m;
+    kp_hd : forall i, Z.of_nat i <> k_winner m -> hd i = heads (k_bufs m) i;
+    kp_sorted : forall i, sorted (remaining (nth i (k_bufs m) no_buf));
+    kp_dead : forall i, hd i = None -> remaining (nth i (k_bufs m) no_buf) = [];
+    kp_count : k_count m = alive hd (length (k_bufs m)) }.
+
+  Definition KInv (m : mk) (hd : nat -> option row) : Prop :=
+    KPre m hd /\
+    forall i, Z.of_nat i = k_winner m -> b_win (nth i (k_bufs m) no_buf) <> [] -> hd i = heads (k_bufs m) i.
+
+  Lemma heads_win bufs i : heads bufs i = match b_win (nth i bufs no_buf) with h :: _ => Some h | [] => None end.
+  Proof. unfold heads, head_of. now rewrite Nat2Z.id. Qed.
+
+  Lemma remaining_no_buf : remaining no_buf = [].
+  Proof. reflexivity. Qed.
+
+  (* while readers are left the winner is one of them *)
+  Lemma kpre_winner m hd : KPre m hd -> k_count m <> 0%nat ->
+    exists wn, k_winner m = Z.of_nat wn /\ (wn < length (k_bufs m))%nat /\ hd wn <> None.
+  Proof.
+    intros P Hc. destruct (kp_tree _ _ P) as [W SH]. rewrite (kp_count _ _ P) in Hc.
+    set (k := length (k_bufs m)) in *.
+    assert (Hex : exists i, (i < k)%nat /\ hd i <> None).
+    { destruct (alive hd k) eqn:E; [congruence|].
+      unfold alive in E. destruct (filter _ _) as [|i l] eqn:F; [discriminate|].
+      assert (Hin : In i (i :: l)) by now left. rewrite <- F in Hin. apply filter_In in Hin.
+      destruct Hin as [Hi Hs]. apply in_seq in Hi. exists i. split; [lia|]. destruct (hd i); [discriminate|discriminate]. }
+    destruct Hex as [i [Hi Hh]].
+    pose proof (winner_minimal k _ _ hd W SH i Hi) as Hm.
+    destruct (hd i) as [y|] eqn:Ei; [|congruence].
+    unfold ph in Hm. destruct (Z.ltb_spec (k_winner m) 0) as [Hn|Hp]; [cbn in Hm; contradiction|].
+    exists (Z.to_nat (k_winner m)). rewrite Z2Nat.id by assumption. split; [reflexivity|].
+    destruct (hd (Z.to_nat (k_winner m))) eqn:Ew; [|cbn in Hm; contradiction].
+    split; [|congruence].
+    destruct (Nat.lt_ge_cases (Z.to_nat (k_winner m)) k) as [|Hge]; [assumption|].
+    rewrite (sh_hd _ _ _ _ _ SH _ Hge) in Ew. discriminate.
+  Qed.
+
+  Lemma map_upd {A B} (f : A -> B) l i x : map f (upd l i x) = upd (map f l) i (f x).
+  Proof. revert i; induction l; intros [|i]; cbn; auto. now rewrite IHl. Qed.
+
+  Lemma absk_set_buf m i b : absk (set_buf K m i b) = upd (absk m) i (remaining b).
+  Proof. unfold absk, set_buf. cbn. apply map_upd. Qed.
+
+  Lemma nth_error_absk m i : (i < length (k_bufs m))%nat ->
+    nth_error (absk m) i = Some (remaining (nth i (k_bufs m) no_buf)).
+  Proof.
+    intros H. unfold absk. rewrite nth_error_map.
+    destruct (nth_error (k_bufs m) i) eqn:E.
+    - cbn. f_equal. f_equal. symmetry. eapply nth_error_nth'; eauto.
+    - apply nth_error_None in E. lia.
+  Qed.
+
+  (* the other readers' heads, as the scheduler sees them *)
+  Lemma other_heads m hd wn j r' t : KPre m hd -> k_winner m = Z.of_nat wn -> j <> wn ->
+    nth_error (absk m) j = Some (r' :: t) -> hd j = Some r'.
+  Proof.
+    intros P Hw Hj E.
+    assert (Hlt : (j < length (k_bufs m))%nat).
+    { assert (j < length (absk m))%nat by (apply nth_error_Some; congruence). unfold absk in H. now rewrite map_length in H. }
+    rewrite nth_error_absk in E by assumption. inversion E as [E'].
+    rewrite (kp_hd _ _ P j) by lia. rewrite heads_win.
+    destruct (hd j) eqn:Eh.
+    - rewrite (kp_hd _ _ P j) in Eh by lia. rewrite heads_win in Eh.
+      unfold remaining in E'. destruct (b_win (nth j (k_bufs m) no_buf)); [discriminate|].
+      cbn in E'. congruence.
+    - rewrite (kp_dead _ _ P j Eh) in E'. discriminate.
+  Qed.
+
+  (* emitting a prefix of what the winner still holds *)
+  Lemma emit_prefix m hd wn pre c' : KPre m hd -> k_winner m = Z.of_nat wn -> (wn < length (k_bufs m))%nat ->
+    remaining (nth wn (k_bufs m) no_buf) = pre ++ remaining c' ->
+    (forall r j y, In r pre -> j <> wn -> hd j = Some y -> rle r y) ->
+    sched (absk m) pre (absk (set_buf K m wn c')).
+  Proof.
+    intros P Hw Hlt Hrem Hle. rewrite absk_set_buf.
+    apply (sched_prefix K cmp cmp_opp).
+    - rewrite nth_error_absk by assumption. now rewrite Hrem.
+    - rewrite <- Hrem. apply (kp_sorted _ _ P).
+    - intros r j r' t Hr Hj E. eapply Hle; eauto. eapply other_heads; eauto.
+  Qed.
+
+  Lemma nth_upd_bufs (bufs : list buf) i j b : (i < length bufs)%nat ->
+    nth j (upd bufs i b) no_buf = if (j =? i)%nat then b else nth j bufs no_buf.
+  Proof.
+    intros H. destruct (Nat.eqb_spec j i) as [->|Hne]; [apply nth_upd_same; exact H|apply nth_upd_other; auto].
+  Qed.
+
+  (* replacing the winner's buffer keeps everything that does not mention its head *)
+  Lemma kpre_set_buf m hd wn c' : KPre m hd -> k_winner m = Z.of_nat wn -> (wn < length (k_bufs m))%nat ->
+    hd wn <> None -> sorted (remaining c') -> KPre (set_buf K m wn c') hd.
+  Proof.
+    intros P Hw Hlt Hal Hs. destruct P as [P1 P2 P3 P4 P5 P6].
+    split; cbn [set_buf k_bufs k_losers k_winner k_leaf k_count]; rewrite ?upd_length; auto.
+    - intros i Hi. rewrite (P3 i Hi), !heads_win, nth_upd_bufs by assumption.
+      destruct (Nat.eqb_spec i wn); [lia|reflexivity].
+    - intros i. rewrite nth_upd_bufs by assumption. destruct (i =? wn)%nat; auto.
+    - intros i Hi. rewrite nth_upd_bufs by assumption. destruct (Nat.eqb_spec i wn) as [->|]; [congruence|auto].
+  Qed.
+
+  Lemma kinv_set_streak m hd s : KInv m hd -> KInv (set_streak K m s) hd.
+  Proof. intros [[P1 P2 P3 P4 P5 P6] H]. split; [split|]; auto. Qed.
+
+  Lemma winner_alive m hd wn : KPre m hd -> k_winner m = Z.of_nat wn -> hd wn <> None /\ (wn < length (k_bufs m))%nat.
+  Proof.
+    intros P Hw. destruct (kp_tree _ _ P) as [W SH]. rewrite Hw in SH.
+    destruct (provenance _ _ _ _ _ SH 0%nat ltac:(lia)) as [i [Hi [Ei [_ Hh]]]].
+    - rewrite (sh_root _ _ _ _ _ SH). lia.
+    - rewrite (sh_root _ _ _ _ _ SH) in Ei. assert (i = wn) by lia. subst i. auto.
+  Qed.
+
+  Lemma ph_heads_agree m hd a : KPre m hd -> a <> k_winner m -> ph (heads (k_bufs m)) a = ph hd a.
+  Proof.
+    intros P H. unfold ph. destruct (Z.ltb_spec a 0); [reflexivity|].
+    symmetry. apply (kp_hd _ _ P). rewrite Z2Nat.id by assumption. exact H.
+  Qed.
+
+  Lemma replay_unfold m :
+    replay K cmp m =
+    let r := replay_walk K cmp (length (k_bufs m)) (k_bufs m) (k_losers m) (k_winner m) (leaf_parent (k_leaf m)) in
+    mkMK K (k_bufs m) (fst r) (k_count m) (snd r) (Z.of_nat (length (k_bufs m)) + snd r) (k_streak m).
+  Proof. unfold replay. destruct (replay_walk _ _ _ _ _ _ _); reflexivity. Qed.
+
+  (* replayGames after the winner's head changed *)
+  Lemma replay_alive m hd wn : KPre m hd -> k_winner m = Z.of_nat wn ->
+    b_win (nth wn (k_bufs m) no_buf) <> [] -> KInv (replay K cmp m) (heads (k_bufs m)).
+  Proof.
+    intros P Hw Hwin. destruct (winner_alive _ _ _ P Hw) as [Hal Hlt].
+    destruct (kp_tree _ _ P) as [W SH]. rewrite Hw in SH.
+    set (k := length (k_bufs m)) in *.
+    assert (Hagree : forall i, i <> wn -> heads (k_bufs m) i = hd i).
+    { intros i Hi. symmetry. apply (kp_hd _ _ P). lia. }
+    assert (Hlv : lv (heads (k_bufs m)) wn = k_winner m).
+    { unfold lv. rewrite heads_win. destruct (b_win (nth wn (k_bufs m) no_buf)); [congruence|auto]. }
+    pose proof (replay_walk_inv k _ hd W wn SH (k_bufs m) eq_refl Hagree) as T.
+    rewrite Hlv in T.
+    assert (Hleaf : leaf_parent (k_leaf m) = parent (k + wn)).
+    { rewrite (kp_leaf _ _ P), Hw. fold k. rewrite <- Nat2Z.inj_add. apply leaf_parent_eq. lia. }
+    rewrite replay_unfold, Hleaf. fold k. cbv zeta.
+    split; [split|]; cbn [k_bufs k_losers k_winner k_leaf k_count]; fold k; auto.
+    - intros i. apply (kp_sorted _ _ P).
+    - intros i Hn. apply (kp_dead _ _ P).
+      destruct (Nat.eq_dec i wn) as [->|Hne]; [|now rewrite <- Hagree].
+      exfalso. rewrite heads_win in Hn. destruct (b_win (nth wn (k_bufs m) no_buf)); [congruence|discriminate].
+    - rewrite (kp_count _ _ P). apply alive_ext. intros i Hi.
+      destruct (Nat.eq_dec i wn) as [->|Hne]; [|now rewrite Hagree].
+      destruct (hd wn); [|congruence]. rewrite heads_win.
+      destruct (b_win (nth wn (k_bufs m) no_buf)); [congruence|reflexivity].
+  Qed.
+
+  (* replayGames after the winner was exhausted *)
+  Lemma replay_dead m hd wn : KPre m hd -> k_winner m = Z.of_nat wn ->
+    remaining (nth wn (k_bufs m) no_buf) = [] ->
+    KInv (replay K cmp (mkMK K (k_bufs m) (k_losers m) (k_count m - 1) (-1) (k_leaf m) (k_streak m)))
+         (heads (k_bufs m)).
+  Proof.
+    intros P Hw Hrem. destruct (winner_alive _ _ _ P Hw) as [Hal Hlt].
+    destruct (kp_tree _ _ P) as [W SH]. rewrite Hw in SH.
+    set (k := length (k_bufs m)) in *.
+    assert (Hagree : forall i, i <> wn -> heads (k_bufs m) i = hd i).
+    { intros i Hi. symmetry. apply (kp_hd _ _ P). lia. }
+    assert (Hnone : heads (k_bufs m) wn = None).
+    { rewrite heads_win. unfold remaining in Hrem. destruct (b_win (nth wn (k_bufs m) no_buf)); [reflexivity|discriminate]. }
+    assert (Hlv : lv (heads (k_bufs m)) wn = -1) by (unfold lv; now rewrite Hnone).
+    pose proof (replay_walk_inv k _ hd W wn SH (k_bufs m) eq_refl Hagree) as T.
+    rewrite Hlv in T.
+    assert (Hleaf : leaf_parent (k_leaf m) = parent (k + wn)).
+    { rewrite (kp_leaf _ _ P), Hw. fold k. rewrite <- Nat2Z.inj_add. apply leaf_parent_eq. lia. }
+    rewrite replay_unfold. cbn [k_bufs k_losers k_winner k_leaf k_count k_streak]. rewrite Hleaf. fold k. cbv zeta.
+    split; [split|]; cbn [k_bufs k_losers k_winner k_leaf k_count]; fold k; auto.
+    - intros i. apply (kp_sorted _ _ P).
+    - intros i Hn. destruct (Nat.eq_dec i wn) as [->|Hne]; [exact Hrem|].
+      apply (kp_dead _ _ P). now rewrite <- Hagree.
+    - rewrite (kp_count _ _ P). fold k. rewrite (alive_kill hd (heads (k_bufs m)) k wn); auto. lia.
+  Qed.
+
+  (* runBound *)
+  Lemma run_bound_spec m hd wn : KPre m hd -> k_winner m = Z.of_nat wn ->
+    forall j y, j <> wn -> hd j = Some y -> ole (run_bound K cmp m) (Some y).
+  Proof.
+    intros P Hw j y Hj Hy. destruct (winner_alive _ _ _ P Hw) as [Hal Hlt].
+    destruct (kp_tree _ _ P) as [W SH]. rewrite Hw in SH.
+    set (k := length (k_bufs m)) in *.
+    assert (Hjk : (j < k)%nat).
+    { destruct (Nat.lt_ge_cases j k) as [|Hge]; [assumption|]. rewrite (sh_hd _ _ _ _ _ SH _ Hge) in Hy. discriminate. }
+    destruct (path_covers k _ hd W wn SH j Hjk Hj) as [a [Ha [Hle Hne]]].
+    assert (Hleaf : leaf_parent (k_leaf m) = parent (k + wn)).
+    { rewrite (kp_leaf _ _ P), Hw. fold k. rewrite <- Nat2Z.inj_add. apply leaf_parent_eq. lia. }
+    unfold run_bound. rewrite Hleaf. fold k.
+    assert (Hpk : (parent (k + wn) <= k)%nat).
+    { unfold parent. assert ((k + wn - 1) / 2 < k)%nat by (apply Nat.div_lt_upper_bound; lia). lia. }
+    destruct (bound_walk_spec (k_bufs m) (k_losers m) k (parent (k + wn)) None Hpk) as [_ B].
+    eapply ole_trans; [apply (B a Ha)|].
+    rewrite (ph_heads_agree m hd) by (auto; congruence). now rewrite <- Hy.
+  Qed.
+
+  Lemma has_next_false (b : buf) : has_next b = false -> b_win b = [].
+  Proof. unfold has_next. destruct (b_win b); [reflexivity|discriminate]. Qed.
+
+  Lemma has_next_true' (b : buf) : has_next b = true -> b_win b <> [].
+  Proof. unfold has_next. destruct (b_win b); [discriminate|discriminate]. Qed.
+
+  (* the inner loop of run mode *)
+  Lemma run_loop_spec fuel : forall room (c : buf) bound em c'' ret,
+    run_loop K cmp fuel room c bound = (em, c'', ret) -> sorted (remaining c) -> b_win c <> [] ->
+    remaining c = em ++ remaining c'' /\
+    (forall r b, In r em -> bound = Some b -> rle r b) /\
+    (ret = true -> b_win c'' = []) /\ (ret = false -> b_win c'' <> []) /\
+    sorted (remaining c'').
+  Proof.
+    induction fuel as [|f IH]; intros room c bound em c'' ret H Hs Hw; cbn [run_loop] in H.
+    { inversion H; subst. repeat split; auto; try discriminate; contradiction. }
+    destruct (Nat.eqb_spec room 0).
+    { inversion H; subst. repeat split; auto; try discriminate; contradiction. }
+    set (window := firstn room (b_win c)) in *.
+    set (run := match bound with None => length window | Some b => run_length cmp window b 0 end) in *.
+    assert (Hsw : sorted window).
+    { unfold window. apply sorted_firstn. unfold remaining in Hs. now apply sorted_app_inv in Hs. }
+    assert (Hrun : (run <= length window)%nat).
+    { unfold run. destruct bound; [apply run_length_le; auto|lia]. }
+    assert (Hlw : (length window <= room)%nat) by (unfold window; rewrite firstn_length; lia).
+    assert (Hf : firstn run window = firstn run (b_win c)).
+    { unfold window. rewrite firstn_firstn. f_equal. lia. }
+    assert (Hrem : remaining c = firstn run window ++ remaining (advance c run)).
+    { rewrite Hf. apply remaining_advance. }
+    assert (Hs' : sorted (remaining (advance c run))).
+    { rewrite Hrem in Hs. now apply sorted_app_inv in Hs. }
+    assert (Hq : forall r b, In r (firstn run window) -> bound = Some b -> rle r b).
+    { intros r b Hr ->. unfold run in Hr.
+      apply (run_length_prefix_qual K cmp cmp_opp cmp_trans window b 0 ltac:(auto) Hsw r Hr). }
+    destruct (has_next (advance c run)) eqn:Hn; cbn [negb] in H.
+    - destruct (Nat.ltb_spec run (length window)).
+      + inversion H; subst. repeat split; auto; try discriminate. intros _. now apply has_next_true'.
+      + destruct (run_loop K cmp f (room - run) (advance c run) bound) as [[em2 cx] rx] eqn:El.
+        inversion H; subst. destruct (IH _ _ _ _ _ _ El Hs' (has_next_true' _ Hn)) as [I1 [I2 [I3 [I4 I5]]]].
+        repeat split; auto.
+        * rewrite Hrem, I1. now rewrite app_assoc.
+        * intros r b Hr Hb. apply in_app_or in Hr. destruct Hr; eauto.
+    - inversion H; subst. repeat split; auto; try discriminate. intros _. now apply has_next_false.
+  Qed.
+
+  Lemma kinv_eof m hd : KPre m hd -> k_count m = 0%nat -> all_empty K (absk m).
+  Proof.
+    intros P Hc. rewrite (kp_count _ _ P) in Hc. unfold all_empty, absk.
+    apply Forall_forall. intros l Hl. apply in_map_iff in Hl. destruct Hl as [b [<- Hb]].
+    apply In_nth with (d := no_buf) in Hb. destruct Hb as [i [Hi <-]].
+    apply (kp_dead _ _ P). exact (alive_zero _ _ Hc i Hi).
+  Qed.
+
+  Lemma absk_same_bufs m m' : k_bufs m' = k_bufs m -> absk m' = absk m.
+  Proof. unfold absk. now intros ->. Qed.
+
+  Lemma replay_bufs m : k_bufs (replay K cmp m) = k_bufs m.
+  Proof. rewrite replay_unfold. reflexivity. Qed.
+
+  Lemma absk_set_same m i b : (i < length (k_bufs m))%nat ->
+    remaining b = remaining (nth i (k_bufs m) no_buf) -> absk (set_buf K m i b) = absk m.
+  Proof.
+    intros Hi E. rewrite absk_set_buf, E. apply upd_id. now apply nth_error_absk.
+  Qed.
+
+  (** ** the loop of ReadRows refines the scheduler *)
+  Lemma loopk_refines fuel : forall room (m : mk) hd out eof m',
+    KInv m hd -> loopk K cmp fuel room m = (out, eof, m') ->
+    sched (absk m) out (absk m') /\ (exists hd', KInv m' hd') /\ (eof = true -> all_empty K (absk m')).
+  Proof.
+    induction fuel as [|f IH]; intros room m hd out eof m' I H; cbn [loopk] in H.
+    { inversion H; subst. split; [constructor|]. split; [eauto|discriminate]. }
+    destruct ((room =? 0)%nat || (k_count m =? 0)%nat) eqn:Estop.
+    { inversion H; subst. split; [constructor|]. split; [eauto|].
+      intros Hc. apply Nat.eqb_eq in Hc. destruct I as [P _]. eapply kinv_eof; eauto. }
+    apply orb_false_iff in Estop. destruct Estop as [Hroom Hcount].
+    apply Nat.eqb_neq in Hroom, Hcount.
+    destruct I as [P Ihdw].
+    destruct (kpre_winner _ _ P Hcount) as [wn [Hw [Hlt Hal]]].
+    rewrite Hw, Nat2Z.id in H.
+    set (c := nth wn (k_bufs m) no_buf) in *.
+    pose proof (kp_sorted _ _ P wn) as Hsc. fold c in Hsc.
+    destruct (b_win c) as [|h t] eqn:Ewin.
+    - (* the winner's buffer is exhausted: repopulate it *)
+      destruct (buf_read c) as [c'|] eqn:Er.
+      + destruct (buf_read_some K c c' Er Ewin) as [Hrem Hne].
+        set (m1 := set_buf K m wn c') in *.
+        assert (P1 : KPre m1 hd) by (apply kpre_set_buf; auto; rewrite Hrem; exact Hsc).
+        assert (Hw1 : k_winner m1 = Z.of_nat wn) by exact Hw.
+        assert (Hc1 : nth wn (k_bufs m1) no_buf = c') by (unfold m1; cbn; apply nth_upd_same; exact Hlt).
+        pose proof (replay_alive m1 hd wn P1 Hw1 ltac:(rewrite Hc1; exact Hne)) as I2.
+        assert (Habs : absk (replay K cmp m1) = absk m).
+        { rewrite (absk_same_bufs m1 (replay K cmp m1)) by apply replay_bufs. apply absk_set_same; auto. }
+        match type of H with loopk K cmp f room ?mm = _ =>
+          assert (I3 : KInv mm (heads (k_bufs m1))) by (destruct (_ =? _); [exact I2|apply kinv_set_streak; exact I2]);
+          assert (Habs' : absk mm = absk m) by (destruct (_ =? _); [exact Habs|exact Habs]);
+          destruct (IH _ _ _ _ _ _ I3 H) as [R1 R2]; rewrite Habs' in R1; auto
+        end.
+      + pose proof (buf_read_none K c Er) as Hsrc.
+        assert (Hrem : remaining c = []) by (unfold remaining; now rewrite Ewin, Hsrc).
+        pose proof (replay_dead m hd wn P Hw Hrem) as I2.
+        match type of H with loopk K cmp f room ?mm = _ =>
+          assert (I3 : KInv mm (heads (k_bufs m))) by (destruct (_ =? _); [exact I2|apply kinv_set_streak; exact I2]);
+          assert (Habs' : absk mm = absk m) by (destruct (_ =? _); apply absk_same_bufs; cbn [set_streak k_bufs]; rewrite replay_bufs; reflexivity);
+          destruct (IH _ _ _ _ _ _ I3 H) as [R1 R2]; rewrite Habs' in R1; auto
+        end.
+    - (* emit the winner's head *)
+      assert (Hhd : hd wn = Some h).
+      { rewrite (Ihdw wn) by (auto; fold c; rewrite Ewin; discriminate). rewrite heads_win. fold c. now rewrite Ewin. }
+      destruct (kp_tree _ _ P) as [W SH].
+      set (c1 := advance c 1) in *. set (m1 := set_buf K m wn c1) in *.
+      assert (Hrem1 : remaining c = [h] ++ remaining c1) by (apply (emit_one_spec K c h t Ewin)).
+      assert (Hs1 : sorted (remaining c1)) by (rewrite Hrem1 in Hsc; now apply sorted_app_inv in Hsc).
+      assert (Hstep1 : sched (absk m) [h] (absk m1)).
+      { apply (emit_prefix m hd wn [h] c1 P Hw Hlt Hrem1).
+        intros r j y [<-|[]] Hj Hy.
+        assert (Hjk : (j < length (k_bufs m))%nat).
+        { destruct (Nat.lt_ge_cases j (length (k_bufs m))) as [|Hge]; [assumption|].
+          rewrite (sh_hd _ _ _ _ _ SH _ Hge) in Hy. discriminate. }
+        pose proof (winner_minimal _ _ _ hd W SH j Hjk) as Hm.
+        rewrite Hw in Hm. unfold ph in Hm. destruct (Z.ltb_spec (Z.of_nat wn) 0); [lia|].
+        rewrite Nat2Z.id, Hhd, Hy in Hm. exact Hm. }
+      assert (P1 : KPre m1 hd) by (apply kpre_set_buf; auto).
+      assert (Hw1 : k_winner m1 = Z.of_nat wn) by exact Hw.
+      assert (Hlt1 : (wn < length (k_bufs m1))%nat) by (unfold m1; cbn; now rewrite upd_length).
+      assert (Hc1 : nth wn (k_bufs m1) no_buf = c1) by (unfold m1; cbn; apply nth_upd_same; exact Hlt).
+      destruct (has_next c1) eqn:Hn1; cbn [negb] in H.
+      2:{ (* the buffer is exhausted: return *)
+        injection H as <- <- <-. split; [exact Hstep1|]. split; [|discriminate].
+        exists hd. split; [exact P1|]. intros i Hi Hwin. exfalso. apply Hwin.
+        assert (i = wn) by (rewrite Hw1 in Hi; lia). subst i. rewrite Hc1. now apply has_next_false. }
+      pose proof (has_next_true' _ Hn1) as Hne1.
+      destruct (k_streak m >=? run_streak).
+      + (* run mode *)
+        destruct (run_loop K cmp (S room) (room - 1) c1 (run_bound K cmp m1)) as [[em c2] ret] eqn:El.
+        destruct (run_loop_spec _ _ _ _ _ _ _ El Hs1 Hne1) as [L1 [L2 [L3 [L4 L5]]]].
+        set (m2 := set_buf K m1 wn c2) in *.
+        assert (Hstep2 : sched (absk m1) em (absk m2)).
+        { apply (emit_prefix m1 hd wn em c2 P1 Hw1 Hlt1); [rewrite Hc1; exact L1|].
+          intros r j y Hr Hj Hy.
+          pose proof (run_bound_spec m1 hd wn P1 Hw1 j y Hj Hy) as Hb.
+          destruct (run_bound K cmp m1) as [b|] eqn:Eb; [|cbn in Hb; contradiction].
+          cbn in Hb. apply (rle_trans K cmp cmp_trans) with b; [eapply L2; eauto|exact Hb]. }
+        assert (P2 : KPre m2 hd) by (apply kpre_set_buf; auto).
+        assert (Hc2 : nth wn (k_bufs m2) no_buf = c2) by (unfold m2; cbn; apply nth_upd_same; exact Hlt1).
+        assert (Hw2 : k_winner m2 = Z.of_nat wn) by exact Hw.
+        destruct ret.
+        * injection H as <- <- <-. split; [change (h :: em) with ([h] ++ em); eapply sched_app; eauto|].
+          split; [|discriminate]. exists hd. split; [exact P2|]. intros i Hi Hwin. exfalso. apply Hwin.
+          assert (i = wn) by (rewrite Hw2 in Hi; lia). subst i. rewrite Hc2. now apply L3.
+        * destruct (loopk K cmp f (room - 1 - length em) (replay K cmp (set_streak K m2 0))) as [[o e] mf] eqn:Elk.
+          injection H as <- <- <-.
+          assert (P2' : KPre (set_streak K m2 0) hd) by (destruct P2; split; auto).
+          pose proof (replay_alive (set_streak K m2 0) hd wn P2' Hw2 ltac:(cbn [set_streak k_bufs]; rewrite Hc2; now apply L4)) as I3.
+          destruct (IH _ _ _ _ _ _ I3 Elk) as [R1 R2].
+          rewrite (absk_same_bufs m2 (replay K cmp (set_streak K m2 0))) in R1 by (rewrite replay_bufs; reflexivity).
+          split; [|exact R2]. change (h :: em ++ o) with ([h] ++ em ++ o).
+          eapply sched_app; [exact Hstep1|]. eapply sched_app; eauto.
+      + (* one game replay per row *)
+        match type of H with context [loopk K cmp f (room - 1) ?mm] =>
+          destruct (loopk K cmp f (room - 1) mm) as [[o e] mf] eqn:Elk;
+          assert (I3 : KInv mm (heads (k_bufs m1)))
+            by (apply kinv_set_streak; apply (replay_alive m1 hd wn P1 Hw1); rewrite Hc1; exact Hne1);
+          assert (Habs' : absk mm = absk m1)
+            by (apply absk_same_bufs; cbn [set_streak k_bufs]; apply replay_bufs)
+        end.
+        injection H as <- <- <-. destruct (IH _ _ _ _ _ _ I3 Elk) as [R1 R2]. rewrite Habs' in R1.
+        split; [|exact R2]. change (h :: o) with ([h] ++ o). eapply sched_app; eauto.
+  Qed.
+
+  (** ** initialize() *)
+  Definition win_some (b : buf) : bool := match b_win b with [] => false | _ => true end.
+
+  Lemma alive_heads_cons (b : buf) bs :
+    alive (heads (b :: bs)) (S (length bs)) = ((if win_some b then 1 else 0) + alive (heads bs) (length bs))%nat.
+  Proof.
+    unfold alive. cbn [List.seq filter]. rewrite <- seq_shift.
+    assert (E : filter (fun i => is_some (heads (b :: bs) i)) (map S (List.seq 0 (length bs)))
+                = map S (filter (fun i => is_some (heads bs i)) (List.seq 0 (length bs)))).
+    { induction (List.seq 0 (length bs)) as [|x l IH]; cbn [map filter]; [reflexivity|].
+      rewrite IH. rewrite !heads_win. cbn [nth]. destruct (b_win (nth x bs no_buf)); reflexivity. }
+    rewrite E. rewrite heads_win. cbn [nth]. unfold win_some.
+    destruct (b_win b); cbn [is_some length]; rewrite map_length; reflexivity.
+  Qed.
+
+  Lemma init_reads_spec : forall (bufs : list buf) i bs leaves cnt,
+    init_reads K bufs i = (bs, leaves, cnt) -> (forall b, In b bufs -> b_win b = []) ->
+    length bs = length bufs /\ length leaves = length bufs /\ map remaining bs = map remaining bufs /\
+    (forall j, (j < length bufs)%nat ->
+       nth j leaves (-1) = if win_some (nth j bs no_buf) then Z.of_nat (i + j) else -1) /\
+    (forall j, win_some (nth j bs no_buf) = false -> remaining (nth j bs no_buf) = []) /\
+    cnt = alive (heads bs) (length bs).
+  Proof.
+    induction bufs as [|b bufs IH]; intros i bs leaves cnt H Hw; cbn [init_reads] in H.
+    - inversion H; subst. repeat split; auto; try (intros; cbn in *; lia).
+      intros j _. destruct j; reflexivity.
+    - destruct (init_reads K bufs (S i)) as [[bs' ls'] cnt'] eqn:E.
+      destruct (IH _ _ _ _ E ltac:(intros; apply Hw; now right)) as [I1 [I2 [I3 [I4 [I5 I6]]]]].
+      assert (Hb : b_win b = []) by (apply Hw; now left).
+      destruct (buf_read b) as [b'|] eqn:Er; injection H as <- <- <-.
+      + destruct (buf_read_some K b b' Er Hb) as [R1 R2].
+        assert (Hs : win_some b' = true) by (unfold win_some; destruct (b_win b'); congruence).
+        repeat split; cbn [length map]; auto.
+        * now rewrite R1, I3.
+        * intros [|j] Hj; cbn [nth].
+          -- rewrite Hs. f_equal. lia.
+          -- rewrite I4 by lia. replace (S i + j)%nat with (i + S j)%nat by lia. reflexivity.
+        * intros [|j]; cbn [nth]; [congruence|apply I5].
+        * rewrite alive_heads_cons, Hs. cbn. now rewrite <- I6.
+      + pose proof (buf_read_none K b Er) as Hsrc.
+        assert (Hs : win_some b = false) by (unfold win_some; now rewrite Hb).
+        repeat split; cbn [length map]; auto.
+        * now rewrite I3.
+        * intros [|j] Hj; cbn [nth].
+          -- now rewrite Hs.
+          -- rewrite I4 by lia. replace (S i + j)%nat with (i + S j)%nat by lia. reflexivity.
+        * intros [|j]; cbn [nth]; [intros _; unfold remaining; now rewrite Hb, Hsrc|apply I5].
+        * rewrite alive_heads_cons, Hs. cbn. exact I6.
+  Qed.
+
+  Definition KTop (m : mk) : Prop :=
+    (k_count m = 0%nat /\ all_empty K (absk m)) \/ exists hd, KInv m hd.
+
+  Lemma mk_init_inv (bufs : list buf) :
+    (forall b, In b bufs -> b_win b = []) -> (forall b, In b bufs -> sorted (remaining b)) ->
+    KTop (mk_init K cmp bufs) /\ absk (mk_init K cmp bufs) = map remaining bufs.
+  Proof.
+    intros Hw Hs. unfold mk_init.
+    destruct (init_reads K bufs 0) as [[bs leaves] cnt] eqn:E.
+    destruct (init_reads_spec _ _ _ _ _ E Hw) as [I1 [I2 [I3 [I4 [I5 I6]]]]].
+    assert (Hsorted : forall i, sorted (remaining (nth i bs no_buf))).
+    { intros i. destruct (Nat.lt_ge_cases i (length bs)) as [Hi|Hi].
+      - assert (Hn : nth i (map remaining bs) [] = remaining (nth i bs no_buf)).
+        { rewrite <- remaining_no_buf. apply map_nth. }
+        rewrite <- Hn, I3. rewrite <- remaining_no_buf, map_nth. apply Hs. apply nth_In. lia.
+      - rewrite nth_overflow by exact Hi. constructor. }
+    assert (Hdead : forall i, heads bs i = None -> remaining (nth i bs no_buf) = []).
+    { intros i Hn. apply I5. rewrite heads_win in Hn. unfold win_some. destruct (b_win (nth i bs no_buf)); [reflexivity|discriminate]. }
+    destruct cnt as [|cnt'].
+    - split; [|exact I3]. left. split; [reflexivity|]. unfold absk. cbn [k_bufs].
+      apply Forall_forall. intros l Hl. apply in_map_iff in Hl. destruct Hl as [b [<- Hb]].
+      apply In_nth with (d := no_buf) in Hb. destruct Hb as [i [Hi <-]].
+      apply Hdead. symmetry in I6. exact (alive_zero _ _ I6 i Hi).
+    - destruct (play_initial K cmp (S (length bufs)) bs leaves (repeat 0 (length bufs)) 0) as [losers w] eqn:Ep.
+      split; [|exact I3]. right. exists (heads bs).
+      assert (T : TreeInv (length bs) losers w (heads bs)).
+      { assert (Hl : forall i, (i < length bs)%nat -> nth i leaves (-1) = lv (heads bs) i).
+        { intros i Hi. rewrite I4 by lia. unfold lv. rewrite heads_win. unfold win_some.
+          destruct (b_win (nth i bs no_buf)); reflexivity. }
+        pose proof (play_initial_inv bs leaves ltac:(lia) Hl) as T. cbv zeta in T.
+        rewrite I1, Ep in T. cbn [fst snd] in T. rewrite I1. exact T. }
+      split; [split|]; cbn [k_bufs k_losers k_winner k_leaf k_count]; auto.
+      now rewrite I1.
+  Qed.
+
+  Lemma read_rowsk_refines m n out eof m' : KTop m -> read_rowsk K cmp m n = (out, eof, m') ->
+    sched (absk m) out (absk m') /\ KTop m' /\ (eof = true -> all_empty K (absk m')).
+  Proof.
+    unfold read_rowsk. intros [[Hc He]|[hd I]] H.
+    - replace (2 * n + 2)%nat with (S (2 * n + 1)) in H by lia. cbn [loopk] in H.
+      rewrite Hc, Nat.eqb_refl, orb_true_r in H. inversion H; subst.
+      split; [constructor|]. split; [left; auto|auto].
+    - destruct (loopk_refines _ _ _ _ _ _ _ I H) as [R1 [R2 R3]]. split; [exact R1|]. split; [right; exact R2|exact R3].
+  Qed.
+
+  Lemma runk_refines batches : forall m outs eof m', KTop m -> runk K cmp m batches = (outs, eof, m') ->
+    sched (absk m) (concat outs) (absk m') /\ (eof = true -> all_empty K (absk m')).
+  Proof.
+    induction batches as [|n t IH]; intros m outs eof m' I H; cbn [runk] in H.
+    - inversion H; subst. split; [constructor|discriminate].
+    - destruct (read_rowsk K cmp m n) as [[out e] m1] eqn:Er.
+      destruct (read_rowsk_refines _ _ _ _ _ I Er) as [R1 [R2 R3]].
+      destruct e.
+      + inversion H; subst. split; [|auto]. destruct out; cbn; [exact R1|rewrite app_nil_r; exact R1].
+      + destruct (runk K cmp m1 t) as [[outs' e'] m2] eqn:Et. inversion H; subst.
+        destruct (IH _ _ _ _ R2 Et) as [J1 J2]. split; [|exact J2]. cbn [concat]. eapply sched_app; eauto.
+  Qed.
+
+  Lemma sources_spec (ins : list (list row)) : forall chunks,
+    (forall b, In b (sources ins chunks) -> b_win b = []) /\
+    map remaining (sources ins chunks) = ins.
+  Proof.
+    induction ins as [|r ins IH]; intros chunks; cbn [sources]; [split; [contradiction|reflexivity]|].
+    destruct (IH (tl chunks)) as [I1 I2]. split.
+    - intros b [<-|Hb]; [reflexivity|auto].
+    - cbn [map]. now rewrite I2.
+  Qed.
+
+  (** for every chunking of the sources and every sequence of slice lengths
+      the rows emitted so far are a run of the scheduler; nothing is left when
+      io.EOF is reported *)
+  Theorem mergek_refines ins chunks batches outs eof m' :
+    Forall sorted ins -> mergek cmp ins chunks batches = (outs, eof, m') ->
+    sched ins (concat outs) (absk m') /\ (eof = true -> all_empty K (absk m')).
+  Proof.
+    intros Hs H. unfold mergek in H. destruct (sources_spec ins chunks) as [S1 S2].
+    destruct (mk_init_inv (sources ins chunks) S1) as [I A].
+    - intros b Hb. rewrite Forall_forall in Hs. apply Hs. rewrite <- S2. now apply in_map.
+    - destruct (runk_refines _ _ _ _ _ I H) as [R1 R2]. rewrite A, S2 in R1. auto.
+  Qed.
+
+  Theorem mergek_correct ins chunks batches outs m' :
+    Forall sorted ins -> tagged K ins -> mergek cmp ins chunks batches = (outs, true, m') ->
+    sorted (concat outs) /\ Permutation (concat ins) (concat outs) /\
+    forall i, of_input K i (concat outs) = nth i ins [].
+  Proof.
+    intros Hs Ht H. destruct (mergek_refines _ _ _ _ _ _ Hs H) as [R1 R2].
+    exact (sched_complete_correct K cmp cmp_opp cmp_trans _ _ _ R1 (R2 eq_refl) Hs Ht).
+  Qed.
 End Tree.
